@@ -379,7 +379,10 @@ def c3_polling(fb, rep):
             continue
         pb, pi, pe = polls[0]
         g = G.guards_of(f, set(f.blocks), pb)
-        rep.ob(clause, 'K4 guard', '%s: the stop handler is polled when the node counter is exhausted' % tag, any('nodesToGo' in x and '<= 0' in x and not x.startswith('!') for x in g),
+        # evaluated, not matched: the poll is unreachable while the counter is positive and reachable when it is 0 or below
+        ctr = lambda v: (lambda t: ('v', v) if t.get('k') == 'mem' and ap(t) == 'this.nodesToGo' else None)
+        polled = G.excluded_under(f, pb, ctr(1)) and not G.excluded_under(f, pb, ctr(0)) and not G.excluded_under(f, pb, ctr(-1))
+        rep.ob(clause, 'K4 guard', '%s: the stop handler is polled when the node counter is exhausted' % tag, polled,
                R.site(f, pe), 'guards %s' % g, f.sname)
         # counter re-armed before polling
         rearm = [(b, i) for b, i, e in f.events() if e.get('k') == 'asg' and ap(e.get('l')) == 'this.nodesToGo' and ap(_strip(e.get('r'))) == 'this.nodesBetweenTimeCheck']
